@@ -40,7 +40,7 @@ ASSUMPTIONS = [
     "TableReader files are well-formed numeric rows (two or more columns); malformed rows are outside the statement",
 ]
 REQUIRED = {"stratum:table": 60, "stratum:reader": 60, "stratum:plot": 40, "reader:no_final_newline": 15,
-            "reader:unsorted": 15, "reader:x_scaled": 20, "table:x_scaled": 8, "table:x_scaled:1e-10": 4, "table:x_scaled:far_from_origin": 4, "reader:inside_node_inside": 10, "reader:other_interval_then_node_then_inside": 15, "reader:comments": 15, "plot:end_point_inexact": 8, "reader:other_number_spellings": 15, "table:xy": 15, "table:y_before_x": 4, "table:x_y": 15, "table:potable": 20}
+            "reader:unsorted": 15, "reader:x_scaled": 20, "table:x_scaled": 8, "table:x_scaled:1e-10": 4, "table:x_scaled:far_from_origin": 4, "reader:inside_node_inside": 10, "reader:other_interval_then_node_then_inside": 15, "reader:comments": 15, "plot:end_point_inexact": 8, "plot:quotient_inexact": 10, "reader:other_number_spellings": 15, "table:xy": 15, "table:y_before_x": 4, "table:x_y": 15, "table:potable": 20}
 
 
 @st.composite
@@ -122,8 +122,32 @@ def _inexact_ends():
 INEXACT_ENDS = _inexact_ends()
 
 
+def _inexact_quotients():
+    """(lowx, highx, steps) from round numbers for which (highx-lowx)/step, with step = (highx-lowx)/steps, does not
+    come back as steps in floating point: whatever derives the number of rows from that quotient (a ceil(), an
+    arange()) gets it wrong there"""
+    out = []
+    for lowx in (0, 0.1, 0.4, 0.5, 1.0, 3.0, 4.7):
+        for highx in (1.0, 2.0, 3, 4.0, 6.0, 6.5, 8.5, 9.4, 10.0, 11.3, 12, 15.0):
+            for steps in (3, 5, 7, 10, 20, 50, 100, 500, 999, 1000, 5000):
+                if highx > lowx:
+                    step = (highx - lowx) / float(steps)
+                    if (highx - lowx) / step != steps:
+                        out.append((lowx, highx, steps))
+    # quotients above and below the step count in turn (sampled_from favours the start of a list)
+    above = [t for t in out if (t[1] - t[0]) / ((t[1] - t[0]) / float(t[2])) > t[2]]
+    below = [t for t in out if t not in above]
+    mixed = []
+    for i in range(max(len(above), len(below))):
+        mixed += above[i:i + 1] + below[i:i + 1]
+    return mixed
+
+
+INEXACT_QUOTIENTS = _inexact_quotients()
+
+
 @st.composite
-def _plot_case(draw):
+def _plot_case(draw, special=None):
     # lower limits of zero (int, float, minus zero) and below, for the forms that are regular there; round and
     # arbitrary extents; step counts from 1 to the default 10000
     lowx = draw(st.one_of(st.sampled_from([0, 0.0, -0.0, 0.1, 0.2, 0.5, 1.0, -1.0, 1]), gen.fl(0.05, 5.0)))
@@ -132,8 +156,9 @@ def _plot_case(draw):
     highx = draw(st.one_of(st.sampled_from([1.0, 2.0, 3, 4.0, 6.0, 6.5, 12, 15.0]).filter(lambda h: h > lowx),
                            gen.fl(0.1, 20.0).map(lambda d: lowx + d)))
     steps = draw(st.one_of(st.integers(1, 120), st.sampled_from([3, 5, 10, 20, 100, 1000, 5000, 10000])))
-    if draw(st.integers(0, 2)) == 0:
-        lowx, highx, steps = draw(st.sampled_from(INEXACT_ENDS))
+    special = draw(st.integers(0, 3)) if special is None else special
+    if special < 2:
+        lowx, highx, steps = draw(st.sampled_from(INEXACT_ENDS if special == 0 else INEXACT_QUOTIENTS))
         form = draw(gen.form_leaf(["morse", "polynomial", "bornmayer"]))
     return {"kind": "plot", "form": form, "lowx": lowx, "highx": highx, "steps": steps,
             "route": draw(st.sampled_from(["plotToFile", "plot", "plotPotentialObjectToFile", "plotPotentialObject"]))}
@@ -147,7 +172,8 @@ def strata(tier):
     n = 40 if tier == "quick" else 200
     return [("table", _table_case(n), 2.4), ("table:x_1e-10", _table_case(n, [(0.0, 1e-10)]), 0.5),
             ("table:x_far_from_origin", _table_case(n, [(1000.0, 0.01), (1000.0, 0.01), (5000.0, 0.001)]), 0.5),
-            ("table:x_other_units", _table_case(n, [(0.0, 1e-3), (0.0, 1e4)]), 0.6), ("reader", _reader_case(), 4), ("plot", _plot_case(), 2)]
+            ("table:x_other_units", _table_case(n, [(0.0, 1e-3), (0.0, 1e4)]), 0.6), ("reader", _reader_case(), 4), ("plot", _plot_case(), 1.5),
+            ("plot:quotient_inexact", _plot_case(1), 0.6)]
 
 
 def budget(tier):
@@ -340,6 +366,8 @@ def _check_plot(case):
     v, cls = [], ["stratum:plot", "plot:" + case["route"]]
     if case["lowx"] + case["steps"] * ((case["highx"] - case["lowx"]) / float(case["steps"])) != case["highx"]:
         cls.append("plot:end_point_inexact")
+    if (case["highx"] - case["lowx"]) / ((case["highx"] - case["lowx"]) / float(case["steps"])) != case["steps"]:
+        cls.append("plot:quotient_inexact")
     f = getattr(pf, case["form"]["name"])(*case["form"]["p"])
     lowx, highx, steps, route = case["lowx"], case["highx"], case["steps"], case["route"]
     try:
